@@ -48,6 +48,13 @@ CHAINDIRi = scen({"r1/a": "A", "r1/c": "C"}, {"r1|c": "a/b", "r1|a": "z"}, mode=
 THRU = scen({"r1/a": "A", "r1/c": "C"}, {"r1|c": "a/b"}, mode="path", strategy="ignore")      # destination below an existing FILE
 THRUs = scen({"r1/a": "A", "r1/c": "C"}, {"r1|c": "a/b"}, mode="path", strategy="stop")
 THRUm = scen({"r1/a": "A", "r1/c": "C", "r1/d": "D"}, {"r1|c": "a/b", "r1|d": "x"}, mode="path", strategy="manual", answers=[("ignore",)])
+# F20: a deferred rename retried after its directory has been renamed away and a symlink renamed into its place
+F20 = {"spec": {"in": None, "in/a": None, "in/a/sub": None, "in/a/sub2": None, "outside": None, "outside/sub": None,
+                "in/b": ["link", "../outside"]},
+       "roots": ["in/a/sub", "in/a", "in/b"], "explicit": [], "mode": "directory", "recursive": False, "hidden": False,
+       "strategy": "stop", "answers": [], "plan": {"in/a|sub": "sub2", "in|a": "c", "in|b": "a"},
+       "order": {"in/a|sub": 0, "in|a": 1, "in|b": 2}, "sorted": False, "invert": False, "dry": False, "fault_at": None,
+       "answer_style": 0, "input_dirs": ["in", "in/a"]}
 K2 = scen({"r1/d": None, "r1/d/f": "F", "r1/l": ("link", "d")}, {"r1|d/f": "g", "r1|l/f": "g"}, recursive=True)
 K3 = scen({"r1/a": "A", "r1/l": ("link", "a")}, {"r1|a": "l"}, strategy="override")
 K5 = scen({"r1/a": "A", "r1/d": None, "r1/d/k": "K"}, {"r1|a": "d"}, strategy="override")
@@ -58,7 +65,7 @@ CORPUS = {
     ("C03", "runs"): [F3c, F1, F18, F18b, CHAINDIR, CHAINDIRi],
     ("C04", "dry_plans"): [dict(F3, dry=True), dict(F14, dry=True), dict(F16, dry=True)],
     ("C05", "dry_vs_real"): [F1, F3, F3c, F14, F15, F16, F16d, F13, F18, K2, K3, K5],
-    ("C06", "runs"): [F4, F16, F13, F18, F18b],
+    ("C06", "runs"): [F4, F16, F13, F18, F18b, F20],
     ("C09", "cli_positions"): [
         {"t": "\t", "position": "filter", "aliases": []},              # F17: renders to the empty expression
         {"t": " ", "position": "sort", "aliases": []},
